@@ -116,13 +116,22 @@ def _residual(y, Z):
 
 def cond_pearson(x, y, Z, min_frac=1e-5):
     """Partial correlation of x and y given the series in Z.  Returns NaN when it is undefined
-    or numerically meaningless: a series constant, or less than `min_frac` of its centred norm
-    is left after the regression, or there are not more samples than regressors."""
+    or numerically meaningless: a series constant, the conditioning series collinear (relative
+    singular value < 1e-8), less than `min_frac` of the centred norm of x or y left after the
+    regression, or not more samples than regressors + 2."""
     x = np.asarray(x, dtype=np.float64)
     if len(x) <= len(Z) + 2:
         return float("nan")
     if len(Z) == 0:
         return pearson(x, y)
+    Zc = np.array(Z, dtype=np.float64)
+    Zc = Zc - Zc.mean(axis=1, keepdims=True)
+    nz = np.sqrt((Zc * Zc).sum(axis=1))
+    if np.any(nz == 0):
+        return float("nan")
+    sv = np.linalg.svd(Zc / nz[:, None], compute_uv=False)
+    if sv[-1] < 1e-8 * sv[0]:
+        return float("nan")        # collinear conditions: regression on them is rank deficient
     rx, fx = _residual(x, Z)
     ry, fy = _residual(y, Z)
     if not (fx > min_frac and fy > min_frac):
